@@ -1,14 +1,917 @@
-//! stub — not built yet
+//! tcp1 — ONE real interface + tcp::Socket; the peer is the explorer (crafted segments built
+//! by an independent builder). Two clients of the BFS engine:
+//!   C04: receiver safety (accepts exactly the in-window, in-sequence bytes of a consistent peer)
+//!   C17: connection state diagram, one event at a time, guards over observable quantities.
+
 use crate::core::*;
-pub fn run_c04(_tier: Tier) -> i32 {
-    2
+use crate::sim::*;
+use crate::wirecheck as wc;
+use serde_json::json;
+use smoltcp::iface::{Config, Interface, SocketHandle, SocketSet};
+use smoltcp::phy::Medium;
+use smoltcp::socket::tcp::{self, State};
+use smoltcp::time::Instant;
+use smoltcp::wire::{HardwareAddress, IpAddress, IpCidr, Ipv4Address};
+
+const LOCAL: [u8; 4] = [10, 0, 0, 1];
+const PEER: [u8; 4] = [10, 0, 0, 2];
+const LPORT: u16 = 80;
+const PPORT: u16 = 40000;
+
+/// Independent segment builder: IPv4 + TCP from the peer to the socket.
+pub fn build_seg(seq: u32, ack: Option<u32>, flags: u8, win: u16, opts: &[u8], payload: &[u8]) -> Vec<u8> {
+    let mut o = opts.to_vec();
+    while o.len() % 4 != 0 {
+        o.push(0);
+    }
+    let thl = 20 + o.len();
+    let total = 20 + thl + payload.len();
+    let mut b = vec![0u8; total];
+    b[0] = 0x45;
+    b[2] = (total >> 8) as u8;
+    b[3] = total as u8;
+    b[6] = 0x40;
+    b[8] = 64;
+    b[9] = 6;
+    b[12..16].copy_from_slice(&PEER);
+    b[16..20].copy_from_slice(&LOCAL);
+    let c = !wc::rfc1071_sum(&[&b[..20]]);
+    b[10] = (c >> 8) as u8;
+    b[11] = c as u8;
+    {
+        let t = &mut b[20..];
+        t[0] = (PPORT >> 8) as u8;
+        t[1] = PPORT as u8;
+        t[2] = (LPORT >> 8) as u8;
+        t[3] = LPORT as u8;
+        t[4..8].copy_from_slice(&seq.to_be_bytes());
+        t[8..12].copy_from_slice(&ack.unwrap_or(0).to_be_bytes());
+        t[12] = ((thl / 4) as u8) << 4;
+        t[13] = flags | if ack.is_some() { wc::TCP_ACK } else { 0 };
+        t[14] = (win >> 8) as u8;
+        t[15] = win as u8;
+        t[20..thl].copy_from_slice(&o);
+        t[thl..].copy_from_slice(payload);
+    }
+    let mut ph = vec![];
+    ph.extend_from_slice(&PEER);
+    ph.extend_from_slice(&LOCAL);
+    ph.extend_from_slice(&[0, 6, ((thl + payload.len()) >> 8) as u8, (thl + payload.len()) as u8]);
+    let c = !wc::rfc1071_sum(&[&ph, &b[20..]]);
+    b[36] = (c >> 8) as u8;
+    b[37] = c as u8;
+    b
 }
-pub fn replay_c04(_art: &serde_json::Value) -> i32 {
-    2
+
+pub struct One {
+    pub iface: Interface,
+    pub dev: SimDevice,
+    pub sockets: SocketSet<'static>,
+    pub h: SocketHandle,
+    pub now: i64,
 }
-pub fn run_c17(_tier: Tier) -> i32 {
-    2
+impl One {
+    pub fn new(rx: usize, tx: usize, seed: u64) -> One {
+        let mut dev = SimDevice::new(Medium::Ip, 1500);
+        let mut c = Config::new(HardwareAddress::Ip);
+        c.random_seed = seed;
+        let mut iface = Interface::new(c, &mut dev, Instant::from_micros(0));
+        iface.update_ip_addrs(|a| {
+            a.push(IpCidr::new(IpAddress::Ipv4(Ipv4Address::new(LOCAL[0], LOCAL[1], LOCAL[2], LOCAL[3])), 24)).unwrap();
+        });
+        let mut s = tcp::Socket::new(tcp::SocketBuffer::new(vec![0u8; rx]), tcp::SocketBuffer::new(vec![0u8; tx]));
+        s.set_ack_delay(None);
+        s.set_nagle_enabled(false);
+        let mut sockets = SocketSet::new(vec![]);
+        let h = sockets.add(s);
+        One { iface, dev, sockets, h, now: 0 }
+    }
+    pub fn sock(&mut self) -> &mut tcp::Socket<'static> {
+        self.sockets.get_mut::<tcp::Socket>(self.h)
+    }
+    pub fn state(&self) -> State {
+        self.sockets.get::<tcp::Socket>(self.h).state()
+    }
+    pub fn inst(&self) -> Instant {
+        Instant::from_micros(self.now)
+    }
+    pub fn poll(&mut self) -> Vec<Vec<u8>> {
+        let t = self.inst();
+        self.iface.poll(t, &mut self.dev, &mut self.sockets);
+        self.dev.take_tx().into_iter().map(|x| x.1).collect()
+    }
+    pub fn ingress_single(&mut self, f: Vec<u8>) -> Vec<Vec<u8>> {
+        let t = self.inst();
+        self.dev.rx.push_back(f);
+        self.iface.poll_ingress_single(t, &mut self.dev, &mut self.sockets);
+        self.dev.take_tx().into_iter().map(|x| x.1).collect()
+    }
+    pub fn egress(&mut self) -> Vec<Vec<u8>> {
+        let t = self.inst();
+        let mut out = vec![];
+        for _ in 0..8 {
+            self.iface.poll_egress(t, &mut self.dev, &mut self.sockets);
+            let f = self.dev.take_tx();
+            if f.is_empty() {
+                break;
+            }
+            out.extend(f.into_iter().map(|x| x.1));
+        }
+        out
+    }
+    pub fn poll_at(&mut self) -> Option<i64> {
+        let t = self.inst();
+        self.iface.poll_at(t, &self.sockets).map(|x| x.total_micros())
+    }
+    pub fn connect(&mut self) -> bool {
+        let cx = self.iface.context();
+        let peer = IpAddress::Ipv4(Ipv4Address::new(PEER[0], PEER[1], PEER[2], PEER[3]));
+        self.sockets.get_mut::<tcp::Socket>(self.h).connect(cx, (peer, PPORT), LPORT).is_ok()
+    }
 }
-pub fn replay_c17(_art: &serde_json::Value) -> i32 {
-    2
+
+fn parse_out(f: &[u8]) -> Option<wc::TcpInfo> {
+    let ip = wc::parse_ip(f).ok()?;
+    if ip.proto != 6 {
+        return None;
+    }
+    wc::parse_tcp(&ip, f).ok()
+}
+
+fn stream_byte(o: usize) -> u8 {
+    ((o * 7 + 1) % 251) as u8
+}
+
+// =======================================================================================
+// C04 receiver harness
+// =======================================================================================
+
+#[derive(Clone, Debug)]
+pub struct RxCfg {
+    pub name: &'static str,
+    pub rx: usize,
+    pub l: usize,
+    pub peer_isn: u32,
+    pub server: bool,
+    pub wscale: bool,
+}
+
+#[derive(Clone, Debug, PartialEq)]
+pub enum RxEv {
+    /// segment carrying stream offsets o..o+len (FIN iff o+len == L)
+    Seg { o: usize, len: usize },
+    Recv(usize),
+    Tick,
+}
+
+pub struct Rx {
+    cfg: RxCfg,
+    w: One,
+    base: u32, // sequence number of stream offset 0 (peer ISN + 1)
+    iss: u32,
+    shift: u32,
+    r_off: i64, // last ACK number seen from the socket, as stream offset
+    e_off: i64, // highest right edge ever advertised, as stream offset
+    eligible: Vec<bool>,
+    fin_eligible: bool,
+    delivered: usize,
+    finished: bool,
+    pending: Vec<Viol>,
+}
+
+impl Rx {
+    fn contig(&self) -> usize {
+        self.eligible.iter().position(|&b| !b).unwrap_or(self.eligible.len())
+    }
+    fn observe(&mut self, frames: &[Vec<u8>]) {
+        for f in frames {
+            let Some(t) = parse_out(f) else { continue };
+            if t.has(wc::TCP_RST) {
+                self.pending.push(Viol::new("C04/unexpected-reset", format!("socket sent RST: {}", wc::describe_ip_frame(f))));
+                continue;
+            }
+            if !t.has(wc::TCP_ACK) {
+                continue;
+            }
+            let shift = if t.has(wc::TCP_SYN) { 0 } else { self.shift };
+            let ack_off = wc::seq_diff(t.ack, self.base);
+            let edge = ack_off + ((t.win as i64) << shift);
+            self.r_off = ack_off;
+            if edge > self.e_off {
+                self.e_off = edge;
+            }
+            // the acknowledgment number never covers a byte (or FIN) not received
+            let c = self.contig() as i64;
+            let fin_ok = c as usize == self.cfg.l && self.fin_eligible;
+            let limit = c + fin_ok as i64;
+            if ack_off > limit {
+                let what = if ack_off > c + 1 || c as usize != self.cfg.l { "data" } else { "fin" };
+                self.pending.push(Viol::new(
+                    format!("C04/ack-covers-unreceived-{}", what),
+                    format!(
+                        "socket acknowledged stream offset {} but only offsets < {} were ever sent inside the advertised window (FIN eligible: {}); {}",
+                        ack_off,
+                        c,
+                        self.fin_eligible,
+                        wc::describe_ip_frame(f)
+                    ),
+                ));
+            }
+        }
+    }
+    fn app_recv(&mut self, n: usize) {
+        let mut buf = vec![0u8; n.min(1 << 17)];
+        match self.w.sock().recv_slice(&mut buf) {
+            Ok(k) => {
+                for i in 0..k {
+                    let o = self.delivered + i;
+                    if o >= self.cfg.l || buf[i] != stream_byte(o) {
+                        self.pending.push(Viol::new(
+                            "C04/delivered-bytes-differ",
+                            format!("byte delivered at stream offset {} is {:#x}, the peer's byte there is {:#x}", o, buf[i], if o < self.cfg.l { stream_byte(o) } else { 0 }),
+                        ));
+                        break;
+                    }
+                }
+                self.delivered += k;
+                if self.delivered > self.contig() {
+                    self.pending.push(Viol::new(
+                        "C04/accepted-data-beyond-window",
+                        format!("application received {} bytes but only the first {} were ever sent inside the advertised window", self.delivered, self.contig()),
+                    ));
+                }
+            }
+            Err(tcp::RecvError::Finished) => {
+                if !self.finished {
+                    self.finished = true;
+                    if self.delivered != self.cfg.l || !self.fin_eligible {
+                        self.pending.push(Viol::new(
+                            "C04/finished-early",
+                            format!("recv reported Finished after {} of {} bytes (FIN sent in window: {})", self.delivered, self.cfg.l, self.fin_eligible),
+                        ));
+                    }
+                }
+            }
+            Err(_) => {}
+        }
+    }
+}
+
+impl Harness for Rx {
+    type Cfg = RxCfg;
+    type Ev = RxEv;
+    fn new(cfg: &RxCfg) -> Rx {
+        let mut w = One::new(cfg.rx, 64, 0x77);
+        let p = cfg.peer_isn;
+        let ws_opt: Vec<u8> = if cfg.wscale { vec![2, 4, 5, 180, 3, 3, 0, 1] } else { vec![2, 4, 5, 180] };
+        let mut frames;
+        let iss;
+        if cfg.server {
+            w.sock().listen(LPORT).unwrap();
+            frames = w.ingress_single(build_seg(p, None, wc::TCP_SYN, 1000, &ws_opt, &[]));
+            frames.extend(w.egress());
+            let sa = frames.iter().filter_map(|f| parse_out(f)).find(|t| t.has(wc::TCP_SYN)).expect("SYN-ACK");
+            iss = sa.seq;
+            let f2 = w.ingress_single(build_seg(p.wrapping_add(1), Some(iss.wrapping_add(1)), 0, 1000, &[], &[]));
+            frames.extend(f2);
+            frames.extend(w.egress());
+        } else {
+            assert!(w.connect());
+            frames = w.egress();
+            let syn = frames.iter().filter_map(|f| parse_out(f)).find(|t| t.has(wc::TCP_SYN)).expect("SYN");
+            iss = syn.seq;
+            let f2 = w.ingress_single(build_seg(p, Some(iss.wrapping_add(1)), wc::TCP_SYN, 1000, &ws_opt, &[]));
+            frames.extend(f2);
+            frames.extend(w.egress());
+        }
+        let own_ws = frames.iter().filter_map(|f| parse_out(f)).find(|t| t.has(wc::TCP_SYN)).and_then(|t| t.wscale);
+        let shift = if cfg.wscale { own_ws.unwrap_or(0) as u32 } else { 0 };
+        let mut h = Rx {
+            cfg: cfg.clone(),
+            w,
+            base: p.wrapping_add(1),
+            iss,
+            shift,
+            r_off: 0,
+            e_off: 0,
+            eligible: vec![false; cfg.l],
+            fin_eligible: false,
+            delivered: 0,
+            finished: false,
+            pending: vec![],
+        };
+        h.observe(&frames);
+        if h.w.state() != State::Established {
+            h.pending.push(Viol::new("MACHINERY/handshake-failed", format!("state {}", h.w.state())));
+        }
+        h
+    }
+    fn enabled(&self) -> Vec<(RxEv, u32)> {
+        let mut v = vec![];
+        let l = self.cfg.l as i64;
+        let r = self.r_off;
+        let e = self.e_off;
+        let mut seqs = vec![r - 2, r - 1, r, r + 1, r + 2, e - 1, e, e + 1];
+        seqs.sort();
+        seqs.dedup();
+        let mut lens = vec![0, 1, 2, 3, (e - r).clamp(0, 60000), (e - r + 2).clamp(0, 60000)];
+        lens.sort();
+        lens.dedup();
+        for &o in &seqs {
+            if o < 0 || o > l {
+                continue;
+            }
+            let mut seen = std::collections::BTreeSet::new();
+            for &n in &lens {
+                let n = n.min(l - o);
+                if seen.insert(n) {
+                    v.push((RxEv::Seg { o: o as usize, len: n as usize }, 0));
+                }
+            }
+        }
+        v.push((RxEv::Recv(1), 0));
+        v.push((RxEv::Recv(2), 0));
+        v.push((RxEv::Recv(usize::MAX), 0));
+        v.push((RxEv::Tick, 0));
+        v
+    }
+    fn apply(&mut self, ev: &RxEv, out: &mut Vec<Viol>) {
+        match *ev {
+            RxEv::Seg { o, len } => {
+                let payload: Vec<u8> = (o..o + len).map(stream_byte).collect();
+                let fin = o + len == self.cfg.l;
+                // eligibility is judged against what the socket had advertised when the
+                // segment was sent (highest right edge so far)
+                for i in o..o + len {
+                    if (i as i64) < self.e_off {
+                        self.eligible[i] = true;
+                    }
+                }
+                if fin && (self.cfg.l as i64) <= self.e_off {
+                    self.fin_eligible = true;
+                }
+                let seg = build_seg(
+                    self.base.wrapping_add(o as u32),
+                    Some(self.iss.wrapping_add(1)),
+                    if fin { wc::TCP_FIN } else { 0 } | if len > 0 { wc::TCP_PSH } else { 0 },
+                    1000,
+                    &[],
+                    &payload,
+                );
+                self.w.dev.rx.push_back(seg);
+                let f = self.w.poll();
+                self.observe(&f);
+            }
+            RxEv::Recv(n) => {
+                self.app_recv(n);
+                let f = self.w.poll();
+                self.observe(&f);
+            }
+            RxEv::Tick => {
+                if let Some(t) = self.w.poll_at() {
+                    if t > self.w.now {
+                        self.w.now = t;
+                    }
+                    let f = self.w.poll();
+                    self.observe(&f);
+                }
+            }
+        }
+        out.append(&mut self.pending);
+    }
+    fn fingerprint(&self) -> u128 {
+        let s = format!(
+            "{:?}|{}|{}|{:?}|{}|{}|{}|{}",
+            self.w.sockets, self.r_off, self.e_off, self.eligible, self.fin_eligible, self.delivered, self.finished, self.w.now
+        );
+        fp128(&s)
+    }
+    fn outcome(&self) -> String {
+        format!("{} delivered {}", self.w.state(), self.delivered)
+    }
+}
+
+pub fn rx_configs(tier: Tier) -> Vec<(RxCfg, usize)> {
+    let mut v = vec![];
+    let (d_small, d_big) = if tier == Tier::Quick { (6, 3) } else { (9, 4) };
+    for &(rx, l) in &[(2usize, 6usize), (3, 6), (4, 6), (8, 10), (64, 10)] {
+        v.push((RxCfg { name: "srv", rx, l, peer_isn: 0xffff_fffd, server: true, wscale: false }, d_small));
+    }
+    v.push((RxCfg { name: "cli", rx: 4, l: 6, peer_isn: 0x7fff_fffd, server: false, wscale: false }, d_small));
+    v.push((RxCfg { name: "srv0", rx: 4, l: 10, peer_isn: 0, server: true, wscale: false }, d_small));
+    v.push((RxCfg { name: "wscale", rx: 70000, l: 70010, peer_isn: 0x7fff_0000, server: true, wscale: true }, d_big));
+    v
+}
+
+pub fn run_c04(tier: Tier) -> i32 {
+    let mut rep = Report::new("C04", tier);
+    let lim = Limits { max_states: 3_000_000, max_wall_s: if tier == Tier::Quick { 40.0 } else { 900.0 } };
+    for (cfg, d) in rx_configs(tier) {
+        let mut samples = vec![];
+        let mut found = vec![];
+        match bfs::<Rx>("tcp1rx", &cfg, d, &lim, &mut found, &mut samples) {
+            Ok(st) => {
+                rep.absorb(&format!("tcp1 receiver {} rx={} L={} isn={:#x} depth<={}", cfg.name, cfg.rx, cfg.l, cfg.peer_isn, d), &st);
+                if rep.samples.len() < 4 {
+                    rep.samples.extend(samples);
+                }
+            }
+            Err(e) => rep.machinery_errors.push(e),
+        }
+        for f in found {
+            if f.viol.sig.starts_with("MACHINERY") {
+                rep.machinery_errors.push(f.viol.detail);
+            } else {
+                rep.found.push(f);
+            }
+        }
+    }
+    rep.cov("rule", json!("BFS with visited set over (real socket image, reference model): from every reached state every segment with seq in {r-2..r+2, e-1, e, e+1} (r = last ACK the socket sent, e = highest right edge it ever advertised) x len in {0,1,2,3,e-r,e-r+2}, FIN exactly at the end of the peer's stream, application reads of 1/2/all bytes, and timer ticks; oracle after every step"));
+    rep.assumptions.push("peer is consistent (fixed byte per sequence offset, FIN at a fixed offset); safety only: acceptance of in-window data is not demanded (the assembler may refuse a hole)".into());
+    rep.assumptions.push("eligibility is judged against the HIGHEST right edge the socket ever advertised (lenient)".into());
+    rep.finish()
+}
+
+fn rx_cfg_from(art: &serde_json::Value) -> Option<RxCfg> {
+    let s = art["replay"]["config"].as_str()?;
+    rx_configs(Tier::Thorough).into_iter().map(|c| c.0).find(|c| format!("{:?}", c) == s)
+}
+pub fn replay_c04(art: &serde_json::Value) -> i32 {
+    match rx_cfg_from(art) {
+        Some(c) => replay_artifact::<Rx>(&c, art),
+        None => {
+            eprintln!("unknown configuration");
+            2
+        }
+    }
+}
+
+// =======================================================================================
+// C17 state-machine harness
+// =======================================================================================
+
+#[derive(Clone, Debug)]
+pub struct FsmCfg {
+    pub name: &'static str,
+    pub peer_isn: u32,
+    pub rx: usize,
+    /// reduced alphabet (fewer sequence/ack choices) to reach deeper
+    pub reduced: bool,
+}
+
+#[derive(Clone, Debug, PartialEq)]
+pub enum Api {
+    Listen,
+    Connect,
+    Close,
+    Abort,
+    Send1,
+    Recv,
+}
+
+#[derive(Clone, Debug, PartialEq)]
+pub enum FsmEv {
+    Seg { flags: u8, seq: u32, ack: Option<u32>, len: usize },
+    Api(Api),
+    ToPollAt,
+    Plus10s,
+}
+
+#[derive(Clone, Debug, Default)]
+struct Obs {
+    iss: Option<u32>,
+    snd_max: Option<u32>,
+    fin_seq: Option<u32>,
+    rcv_nxt: Option<u32>,
+    edge: Option<u32>,
+    was_listening: bool,
+    /// close() was called while the socket was in SYN-RECEIVED (its SYN still unacknowledged);
+    /// used only to NAME violations that follow from it
+    closed_in_synrcvd: bool,
+    /// earliest / latest possible TIME-WAIT deadline (entry, or refresh by a later segment)
+    tw_min: Option<i64>,
+    tw_max: Option<i64>,
+}
+
+pub struct Fsm {
+    cfg: FsmCfg,
+    w: One,
+    obs: Obs,
+    pending: Vec<Viol>,
+}
+
+fn st_name(s: State) -> String {
+    format!("{}", s)
+}
+
+impl Fsm {
+    fn observe(&mut self, frames: &[Vec<u8>]) {
+        for f in frames {
+            let Some(t) = parse_out(f) else { continue };
+            if t.has(wc::TCP_RST) {
+                continue;
+            }
+            if t.has(wc::TCP_SYN) {
+                if self.obs.iss != Some(t.seq) {
+                    // a new connection attempt: forget the previous connection's numbers
+                    let wl = self.obs.was_listening;
+                    let cs = self.obs.closed_in_synrcvd && self.obs.iss.is_none();
+                    self.obs = Obs { was_listening: wl, closed_in_synrcvd: cs, ..Default::default() };
+                }
+                self.obs.iss = Some(t.seq);
+            }
+            let end = t.seq.wrapping_add(t.seg_len as u32);
+            self.obs.snd_max = Some(match self.obs.snd_max {
+                Some(m) if wc::seq_lt(end, m) => m,
+                _ => end,
+            });
+            if t.has(wc::TCP_FIN) {
+                self.obs.fin_seq = Some(t.seq.wrapping_add(t.payload.len() as u32));
+            }
+            if t.has(wc::TCP_ACK) {
+                self.obs.rcv_nxt = Some(t.ack);
+                self.obs.edge = Some(t.ack.wrapping_add(t.win as u32));
+            }
+        }
+    }
+
+    fn in_window(&self, seq: u32) -> bool {
+        match (self.obs.rcv_nxt, self.obs.edge) {
+            (Some(n), Some(e)) => {
+                if n == e {
+                    seq == n
+                } else {
+                    wc::seq_le(n, seq) && wc::seq_lt(seq, e)
+                }
+            }
+            _ => false,
+        }
+    }
+
+    /// Is the observed transition from -> to allowed for this stimulus? (Appendix A of DESIGN.md)
+    fn allowed(&self, from: State, to: State, stim: &Stim) -> bool {
+        if from == to {
+            return true;
+        }
+        let o = &self.obs;
+        match stim {
+            Stim::Api(Api::Abort, _) => to == State::Closed,
+            Stim::Api(Api::Listen, ok) => *ok && matches!(from, State::Closed | State::TimeWait) && to == State::Listen,
+            Stim::Api(Api::Connect, ok) => *ok && matches!(from, State::Closed | State::TimeWait) && to == State::SynSent,
+            Stim::Api(Api::Close, _) => matches!(
+                (from, to),
+                (State::Listen, State::Closed)
+                    | (State::SynSent, State::Closed)
+                    | (State::SynReceived, State::FinWait1)
+                    | (State::Established, State::FinWait1)
+                    | (State::CloseWait, State::LastAck)
+            ),
+            Stim::Api(_, _) => false,
+            Stim::Egress(t) => from == State::TimeWait && to == State::Closed && o.tw_min.map_or(false, |d| *t >= d),
+            Stim::Seg { flags, seq, ack, len } => {
+                let syn = flags & wc::TCP_SYN != 0;
+                let fin = flags & wc::TCP_FIN != 0;
+                let rst = flags & wc::TCP_RST != 0;
+                let has_ack = ack.is_some();
+                let ack_is = |v: Option<u32>| -> bool { matches!((ack, v), (Some(a), Some(b)) if *a == b) };
+                let iss1 = o.iss.map(|i| i.wrapping_add(1));
+                let fin1 = o.fin_seq.map(|i| i.wrapping_add(1));
+                let n = *len as u32;
+                let inorder_fin = fin
+                    && !syn
+                    && !rst
+                    && match (o.rcv_nxt, o.edge) {
+                        (Some(r), Some(e)) => wc::seq_le(*seq, r) && wc::seq_le(r, seq.wrapping_add(n)) && wc::seq_le(seq.wrapping_add(n), e),
+                        _ => false,
+                    };
+                let ack_acceptable = match (ack, iss1, o.snd_max) {
+                    (Some(a), Some(lo), Some(hi)) => wc::seq_le(lo, *a) && wc::seq_le(*a, hi),
+                    _ => false,
+                };
+                let rst_in_window = rst && self.in_window(*seq);
+                // a data/ack segment is "in window" if any part of it is (lenient)
+                let seg_in_window = self.in_window(*seq)
+                    || (n > 0
+                        && match (o.rcv_nxt, o.edge) {
+                            (Some(r), Some(e)) => wc::seq_lt(r, seq.wrapping_add(n)) && wc::seq_le(seq.wrapping_add(n), e),
+                            _ => false,
+                        });
+                match (from, to) {
+                    (State::Listen, State::SynReceived) => syn && !has_ack && !rst,
+                    (State::SynSent, State::Established) => syn && !rst && ack_is(iss1),
+                    (State::SynSent, State::SynReceived) => syn && !has_ack && !rst,
+                    (State::SynSent, State::Closed) => rst && ack_is(iss1),
+                    (State::SynReceived, State::Established) => has_ack && !syn && !rst && !inorder_fin && ack_is(iss1) && seg_in_window,
+                    (State::SynReceived, State::CloseWait) => inorder_fin && ack_is(iss1),
+                    (State::SynReceived, State::Listen) => rst_in_window && o.was_listening,
+                    (State::SynReceived, State::Closed) => rst_in_window && !o.was_listening,
+                    (State::Established, State::CloseWait) => inorder_fin && ack_acceptable,
+                    (State::FinWait1, State::FinWait2) => !rst && !syn && ack_is(fin1) && !inorder_fin,
+                    (State::FinWait1, State::Closing) => inorder_fin && !ack_is(fin1),
+                    (State::FinWait1, State::TimeWait) => inorder_fin && ack_is(fin1),
+                    (State::FinWait2, State::TimeWait) => inorder_fin,
+                    (State::Closing, State::TimeWait) => !rst && !syn && ack_is(fin1),
+                    (State::LastAck, State::Closed) => (!rst && !syn && ack_is(fin1)) || rst_in_window,
+                    (State::Established | State::FinWait1 | State::FinWait2 | State::CloseWait | State::Closing | State::TimeWait, State::Closed) => rst_in_window,
+                    _ => false,
+                }
+            }
+        }
+    }
+
+    fn check(&mut self, from: State, to: State, stim: &Stim) {
+        if !self.allowed(from, to, stim) {
+            let cause = match stim {
+                Stim::Api(a, ok) => format!("api-{:?}-{}", a, if *ok { "ok" } else { "err" }),
+                Stim::Egress(_) => "egress".to_string(),
+                Stim::Seg { flags, seq, ack, len } => {
+                    let mut f = String::new();
+                    for (b, n) in [(wc::TCP_SYN, "S"), (wc::TCP_FIN, "F"), (wc::TCP_RST, "R"), (wc::TCP_PSH, "P")] {
+                        if flags & b != 0 {
+                            f.push_str(n);
+                        }
+                    }
+                    if ack.is_some() {
+                        f.push('A');
+                    }
+                    let o = &self.obs;
+                    // name the relation of the stimulus to the quantities the guards use, not
+                    // its raw numbers: the same defect must collapse into one signature
+                    let ackrel = match (ack, o.iss, o.fin_seq) {
+                        (None, _, _) => "noack".to_string(),
+                        (Some(a), iss, fin) => {
+                            let mut r = vec![];
+                            if iss.map_or(false, |i| *a == i.wrapping_add(1)) {
+                                r.push("iss+1");
+                            }
+                            match fin {
+                                Some(fs) if *a == fs.wrapping_add(1) => r.push("fin+1"),
+                                Some(_) => r.push("not-fin+1"),
+                                None => r.push("fin-unsent"),
+                            }
+                            r.join(",")
+                        }
+                    };
+                    let seqrel = if self.in_window(*seq) { "in-window" } else { "out-of-window" };
+                    let _ = len;
+                    format!("seg-{}/ack={}/seq-{}", if f.is_empty() { "none".to_string() } else { f }, ackrel, seqrel)
+                }
+            };
+            self.pending.push(Viol::new(
+                format!(
+                    "C17/illegal-transition/{}/{}->{}/{}",
+                    if self.obs.closed_in_synrcvd { "after-close-in-SYN-RECEIVED" } else { "plain" },
+                    st_name(from),
+                    st_name(to),
+                    cause
+                ),
+                format!("state changed {} -> {} on {:?}; observables {:?}", from, to, stim, self.obs),
+            ));
+        }
+        // bookkeeping of TIME-WAIT deadlines
+        if to == State::TimeWait && from != State::TimeWait {
+            self.obs.tw_min = Some(self.w.now + 10_000_000);
+            self.obs.tw_max = Some(self.w.now + 10_000_000);
+        } else if to == State::TimeWait && matches!(stim, Stim::Seg { .. }) {
+            // a segment arriving in TIME-WAIT may legitimately restart the 2MSL timer
+            self.obs.tw_max = Some(self.w.now + 10_000_000);
+        }
+        if to != State::TimeWait {
+            self.obs.tw_min = None;
+            self.obs.tw_max = None;
+        }
+    }
+
+    fn egress_step(&mut self) {
+        let pre = self.w.state();
+        let frames = self.w.egress();
+        let post = self.w.state();
+        let now = self.w.now;
+        self.check(pre, post, &Stim::Egress(now));
+        // TIME-WAIT must end by itself: an egress pass at/after the latest possible deadline
+        if pre == State::TimeWait && post == State::TimeWait {
+            if let Some(d) = self.obs.tw_max {
+                if now >= d {
+                    self.pending.push(Viol::new("C17/time-wait-not-left-after-10s", format!("still TIME-WAIT at t={}us, deadline {}us", now, d)));
+                }
+            }
+        }
+        self.observe(&frames);
+    }
+}
+
+#[derive(Clone, Debug)]
+enum Stim {
+    Seg { flags: u8, seq: u32, ack: Option<u32>, len: usize },
+    Api(Api, bool),
+    Egress(i64),
+}
+
+impl Harness for Fsm {
+    type Cfg = FsmCfg;
+    type Ev = FsmEv;
+    fn new(cfg: &FsmCfg) -> Fsm {
+        Fsm { cfg: cfg.clone(), w: One::new(cfg.rx, 8, 0x99), obs: Obs::default(), pending: vec![] }
+    }
+    fn enabled(&self) -> Vec<(FsmEv, u32)> {
+        let mut v = vec![];
+        for a in [Api::Listen, Api::Connect, Api::Close, Api::Abort, Api::Send1, Api::Recv] {
+            v.push((FsmEv::Api(a), 0));
+        }
+        v.push((FsmEv::ToPollAt, 0));
+        v.push((FsmEv::Plus10s, 0));
+        if self.w.state() == State::Closed {
+            return v; // a closed socket accepts no segment; nothing to learn from sending any
+        }
+        let o = &self.obs;
+        let p = self.cfg.peer_isn;
+        let n = o.rcv_nxt.unwrap_or(p);
+        let e = o.edge.unwrap_or(n);
+        let mut seqs: Vec<u32> = if self.cfg.reduced {
+            vec![n.wrapping_sub(1), n, e]
+        } else {
+            vec![n.wrapping_sub(1), n, n.wrapping_add(1), e.wrapping_sub(1), e, e.wrapping_add(5)]
+        };
+        seqs.sort();
+        seqs.dedup();
+        let mut acks: Vec<u32> = vec![];
+        match o.iss {
+            Some(i) => {
+                acks.push(i.wrapping_add(1));
+                if !self.cfg.reduced {
+                    acks.push(i);
+                    acks.push(i.wrapping_add(100_000));
+                }
+                if let Some(m) = o.snd_max {
+                    acks.push(m);
+                    if !self.cfg.reduced {
+                        acks.push(m.wrapping_sub(1));
+                        acks.push(m.wrapping_add(1));
+                    }
+                }
+                if let Some(f) = o.fin_seq {
+                    acks.push(f.wrapping_add(1));
+                    acks.push(f);
+                }
+            }
+            None => {
+                acks.push(0);
+                acks.push(12345);
+            }
+        }
+        acks.sort();
+        acks.dedup();
+        let noack_flags = [wc::TCP_SYN, wc::TCP_RST, wc::TCP_FIN, 0];
+        let ack_flags = [wc::TCP_SYN, 0, wc::TCP_FIN, wc::TCP_RST, wc::TCP_PSH];
+        for &seq in &seqs {
+            for len in [0usize, 1] {
+                for &fl in &noack_flags {
+                    if self.cfg.reduced && (fl == 0 || fl == wc::TCP_FIN) {
+                        continue;
+                    }
+                    v.push((FsmEv::Seg { flags: fl, seq, ack: None, len }, 0));
+                }
+                for &fl in &ack_flags {
+                    if self.cfg.reduced && fl == wc::TCP_PSH {
+                        continue;
+                    }
+                    for &a in &acks {
+                        v.push((FsmEv::Seg { flags: fl, seq, ack: Some(a), len }, 0));
+                    }
+                }
+            }
+        }
+        v
+    }
+    fn apply(&mut self, ev: &FsmEv, out: &mut Vec<Viol>) {
+        match ev {
+            FsmEv::Seg { flags, seq, ack, len } => {
+                let payload = vec![0x5a; *len];
+                let seg = build_seg(*seq, *ack, *flags, 500, if flags & wc::TCP_SYN != 0 { &[2, 4, 5, 180] } else { &[] }, &payload);
+                let pre = self.w.state();
+                if pre == State::Listen {
+                    self.obs.was_listening = true;
+                }
+                let frames = self.w.ingress_single(seg);
+                let mid = self.w.state();
+                self.check(pre, mid, &Stim::Seg { flags: *flags, seq: *seq, ack: *ack, len: *len });
+                self.observe(&frames);
+                self.egress_step();
+            }
+            FsmEv::Api(a) => {
+                let pre = self.w.state();
+                let ok = match a {
+                    Api::Listen => {
+                        let r = self.w.sock().listen(LPORT).is_ok();
+                        if r {
+                            self.obs = Obs { was_listening: true, ..Default::default() };
+                        }
+                        r
+                    }
+                    Api::Connect => {
+                        let r = self.w.connect();
+                        if r {
+                            self.obs = Obs { was_listening: false, ..Default::default() };
+                        }
+                        r
+                    }
+                    Api::Close => {
+                        self.w.sock().close();
+                        true
+                    }
+                    Api::Abort => {
+                        self.w.sock().abort();
+                        true
+                    }
+                    Api::Send1 => self.w.sock().send_slice(&[0x42]).is_ok(),
+                    Api::Recv => {
+                        let mut b = [0u8; 16];
+                        self.w.sock().recv_slice(&mut b).is_ok()
+                    }
+                };
+                let post = self.w.state();
+                if *a == Api::Close && pre == State::SynReceived {
+                    self.obs.closed_in_synrcvd = true;
+                }
+                self.check(pre, post, &Stim::Api(a.clone(), ok));
+                self.egress_step();
+            }
+            FsmEv::ToPollAt => {
+                if let Some(t) = self.w.poll_at() {
+                    if t > self.w.now {
+                        self.w.now = t;
+                    }
+                }
+                self.egress_step();
+            }
+            FsmEv::Plus10s => {
+                self.w.now += 10_000_000;
+                self.egress_step();
+            }
+        }
+        out.append(&mut self.pending);
+    }
+    fn fingerprint(&self) -> u128 {
+        fp128(&format!("{:?}|{:?}|{}", self.w.sockets, self.obs, self.w.now))
+    }
+    fn outcome(&self) -> String {
+        st_name(self.w.state())
+    }
+}
+
+pub fn fsm_configs(tier: Tier) -> Vec<(FsmCfg, usize)> {
+    match tier {
+        Tier::Quick => vec![
+            (FsmCfg { name: "full", peer_isn: 0xffff_fff0, rx: 8, reduced: false }, 5),
+            (FsmCfg { name: "reduced", peer_isn: 5000, rx: 8, reduced: true }, 7),
+        ],
+        Tier::Thorough => vec![
+            (FsmCfg { name: "full", peer_isn: 0xffff_fff0, rx: 8, reduced: false }, 5),
+            (FsmCfg { name: "reduced", peer_isn: 5000, rx: 8, reduced: true }, 8),
+        ],
+    }
+}
+
+pub fn run_c17(tier: Tier) -> i32 {
+    let mut rep = Report::new("C17", tier);
+    let lim = Limits { max_states: 4_000_000, max_wall_s: if tier == Tier::Quick { 40.0 } else { 900.0 } };
+    let mut edges: std::collections::BTreeSet<String> = Default::default();
+    for (cfg, d) in fsm_configs(tier) {
+        let mut samples = vec![];
+        let mut found = vec![];
+        match bfs::<Fsm>("tcp1fsm", &cfg, d, &lim, &mut found, &mut samples) {
+            Ok(st) => {
+                for (k, _) in &st.outcomes {
+                    edges.insert(k.clone());
+                }
+                rep.absorb(&format!("tcp1 state machine alphabet={} depth<={}", cfg.name, d), &st);
+                rep.samples.extend(samples);
+            }
+            Err(e) => rep.machinery_errors.push(e),
+        }
+        for f in found {
+            if f.viol.sig.starts_with("MACHINERY") {
+                rep.machinery_errors.push(f.viol.detail);
+            } else {
+                rep.found.push(f);
+            }
+        }
+    }
+    rep.cov("rule", json!("BFS with visited set from CLOSED: every API call (listen/connect/close/abort/send/recv), time advance (to poll_at, +10 s) and every segment from the alphabet flags x seq in {rcv.nxt-1, rcv.nxt, rcv.nxt+1, edge-1, edge, far} x ack in {iss, iss+1, snd.max-1, snd.max, snd.max+1, fin, fin+1, far} x len in {0,1}; state() is read before/after the single ingress step and the following egress pass; every observed change must be in the RFC 9293 table with its guard true over quantities seen on the wire"));
+    rep.assumptions.push("guards use only observable quantities (ISS, FIN position, last ACK/window the socket emitted); delayed ACK off so these are current; lenient table (API composites from TIME-WAIT allowed)".into());
+    rep.finish()
+}
+
+fn fsm_cfg_from(art: &serde_json::Value) -> Option<FsmCfg> {
+    let s = art["replay"]["config"].as_str()?;
+    fsm_configs(Tier::Thorough).into_iter().map(|c| c.0).find(|c| format!("{:?}", c) == s)
+}
+pub fn replay_c17(art: &serde_json::Value) -> i32 {
+    match fsm_cfg_from(art) {
+        Some(c) => replay_artifact::<Fsm>(&c, art),
+        None => {
+            eprintln!("unknown configuration");
+            2
+        }
+    }
 }
